@@ -59,8 +59,8 @@ def make_run(prop, verif_seed, idx, tier):
     return run
 
 
-class RunTimeout(Exception):
-    pass
+class RunTimeout(BaseException):
+    """not an Exception: the machines' own `except Exception` around library calls must not swallow it"""
 
 
 def _alarm(signum, frame):
@@ -72,7 +72,8 @@ def exec_run(world, run, prop=None):
     prop = prop or run['property']
     m = importlib.import_module('simworld.machines.' + MACHINES[prop])
     old = signal.signal(signal.SIGALRM, _alarm)
-    signal.setitimer(signal.ITIMER_REAL, RUN_TIMEOUT_S)
+    # fires again every few seconds in case the first one lands inside a bare `except:` of the library
+    signal.setitimer(signal.ITIMER_REAL, RUN_TIMEOUT_S, 5.0)
     crash = None
     try:
         world.reset_state()
@@ -436,6 +437,8 @@ def check(prop, tier, verif_seed, jobs=None, runs=None, budget=None):
             json.dump({str(k): v for k, v in sorted(agg['digests'].items())}, f)
     if agg['digests']:
         idxs = sorted(agg['digests'])[::max(1, len(agg['digests']) // ndig)] if dump else sorted(agg['digests'])
+        # runs that did not return are not re-executed (each would cost the full time bound again)
+        idxs = [i for i in idxs if agg['digests'][i] not in ('timeout', 'crash')]
         env = dict(os.environ)
         env['PYTHONHASHSEED'] = '97'
         env['VERIF_SEED'] = str(verif_seed)
